@@ -19,6 +19,7 @@ type polOutcome struct {
 	hdr  string
 	blk  string
 	kind string
+	cl   int64 // the Content-Length of the returned record's header (-1: none or not a number)
 }
 
 func unmarshalUnder(o ropts, data []byte, fault bool) polOutcome {
@@ -28,6 +29,10 @@ func unmarshalUnder(o ropts, data []byte, fault bool) polOutcome {
 		if res.errTag == "" {
 			out.kind, out.blk = readAllBlock(res.rec)
 			out.hdr = showPairs(pairsOf(res.rec))
+			out.cl = -1
+			if n, err := strconv.ParseInt(res.rec.WarcHeader().Get("Content-Length"), 10, 64); err == nil && n >= 0 {
+				out.cl = n
+			}
 		}
 		res.rec.Close()
 	}
@@ -128,6 +133,13 @@ func kXpol(args []string) (string, string) {
 			r := unmarshalUnder(o, data, fault)
 			if r.err != "" {
 				continue
+			}
+			plain := !(len(data) > 2 && data[0] == 0x1f && data[1] == 0x8b) // inside a gzip member the block ends with the member, not at the fault
+			if fault && plain && r.cl >= 0 && r.blk != "-" && !strings.HasPrefix(r.blk, "err:") && int64(len(r.blk)/2) != r.cl {
+				// the stream ends in a read ERROR (not in EOF): a record handed out without an error holds its complete declared
+				// block - an I/O error while the block is read is never swallowed, under no policy
+				oracle = fmt.Sprintf("VIOL c07-fault-swallowed policy=%d%d%d%d block=%d declared=%d and no error", o.syn, o.spec, o.unk, o.blk, len(r.blk)/2, r.cl)
+				break
 			}
 			if ref == nil {
 				rr := r
@@ -283,6 +295,29 @@ func kUnmPair(args []string) (string, string) {
 	if after != alone {
 		return "impl-only", "VIOL c07-state-leak the same record parses differently after another record: " + sanitize(after) + " VS " + sanitize(alone)
 	}
+	// policy coherence on a REUSED Unmarshaler (C08): with all axes at warn and at fail, the second call fails under fail
+	// exactly when it earns a finding or an error under warn
+	second2 := func(level int) (bool, bool) {
+		ol := o
+		ol.syn, ol.spec, ol.unk, ol.blk = level, level, level, level
+		u := gowarc.NewUnmarshaler(ol.options()...)
+		for i, data := range [][]byte{first, second} {
+			br := bufio.NewReaderSize(bytes.NewReader(data), 64)
+			rec, _, val, err := u.Unmarshal(br)
+			if rec != nil {
+				_ = rec.Close()
+			}
+			if i == 1 {
+				return err != nil, val != nil && !val.Valid()
+			}
+		}
+		return false, false
+	}
+	wErr, wFnd := second2(1)
+	fErr, _ := second2(2)
+	if fErr != (wErr || wFnd) {
+		return "impl-only", fmt.Sprintf("VIOL c08-fail-iff-warn on the second record of one Unmarshaler: fail error=%v, warn error=%v findings=%v", fErr, wErr, wFnd)
+	}
 	return "impl-only", "ok"
 }
 
@@ -296,7 +331,16 @@ func genUnmPair(r *rng, n int, emit func(string, ...string)) {
 		g1 := *g
 		g1.hdr = append([][2]string{}, g.hdr...)
 		var first []byte
-		switch sub.intn(4) {
+		if sub.chance(1, 4) {
+			// a version this library does not know, the same in both records (a file written by other software holds many)
+			g.version = pick(sub, []string{"0.18", "0.17", "2.0", "1.2"})
+			g1.version = g.version
+			second = g.serialize()
+		}
+		switch sub.intn(5) {
+		case 4:
+			// the same record twice
+			first = second
 		case 0:
 			// same headers (same Content-Length line), an HTTP-looking block of the same length without header terminator
 			if len(g.block) >= 24 {
@@ -346,6 +390,7 @@ func genC07(r *rng, n int, tier string, emit func(string, ...string)) {
 
 func genC08(r *rng, n int, tier string, emit func(string, ...string)) {
 	genXpolFault(r, n/6, emit)
+	genUnmPair(r, n/12+8, emit)
 	genUnmarshalCases(r, n, func(kind string, args ...string) {
 		emit("xpol", args[0], args[1], args[2], args[3])
 	}, func(r *rng) ropts {
